@@ -74,30 +74,29 @@ class Engine(ExprMixin, BuiltinMixin):
 
     # ---- obligations -------------------------------------------------------------------------------------
     # sequence functionals: value determined by the first n elements of their array arguments
-    FUNCTIONALS = {"mean": ([0], 1), "Fobj": ([1], 2), "WF": ([1], 2), "nanfree": ([1], 2), "dot": ([0, 1], 2)}
+    FUNCTIONALS = {"mean": ([0], 1), "Fobj": ([1], 2), "WF": ([1], 2), "nanfree": ([1], 2), "dot": ([0, 1], 2),
+                   "stop_at": ([6], 7)}
 
     def congruence_instances(self, formulas):
-        """prefix-congruence lemma instances for pairs of ground applications of sequence functionals"""
+        """Sequence functionals depend only on the first n elements of their array arguments: the (quantified)
+        prefix-congruence axiom of every functional that is applied to two different argument tuples."""
         apps = {}
         for f in formulas:
             for e in self._functional_apps(f):
-                apps.setdefault(e.decl().name(), {})[e.get_id()] = e
+                apps.setdefault(e.decl(), set()).add(tuple(a.get_id() for a in e.children()))
         out = []
-        for nm, d in apps.items():
-            arrs, npos = self.FUNCTIONALS[nm]
-            ts = list(d.values())[:8]
-            for a in range(len(ts)):
-                for b in range(a + 1, len(ts)):
-                    t1, t2 = ts[a], ts[b]
-                    i = z3.Int(f"cg_{nm}_{a}_{b}")
-                    n1 = t1.arg(npos)
-                    hyp = [n1 == t2.arg(npos)]
-                    for p in range(t1.num_args()):
-                        if p in arrs:
-                            hyp.append(z3.ForAll([i], z3.Implies(z3.And(i >= 0, i < n1), t1.arg(p)[i] == t2.arg(p)[i])))
-                        elif p != npos:
-                            hyp.append(t1.arg(p) == t2.arg(p))
-                    out.append(z3.Implies(z3.And(*hyp), t1 == t2))
+        for decl, argsets in apps.items():
+            if len(argsets) < 2:
+                continue
+            arrs, npos = self.FUNCTIONALS[decl.name()]
+            xs = [z3.Const(f"cgx_{decl.name()}_{p}", decl.domain(p)) for p in range(decl.arity())]
+            ys = [z3.Const(f"cgy_{decl.name()}_{p}", decl.domain(p)) if p in arrs else xs[p] for p in range(decl.arity())]
+            i = z3.Int(f"cgi_{decl.name()}")
+            n = xs[npos]
+            hyp = [z3.ForAll([i], z3.Implies(z3.And(i >= 0, i < n), xs[p][i] == ys[p][i])) for p in arrs]
+            t1, t2 = decl(*xs), decl(*ys)
+            vs = xs + [ys[p] for p in arrs]
+            out.append(z3.ForAll(vs, z3.Implies(z3.And(*hyp), t1 == t2), patterns=[z3.MultiPattern(t1, t2)]))
         return out
 
     def _functional_apps(self, f):
@@ -117,7 +116,7 @@ class Engine(ExprMixin, BuiltinMixin):
                 stack.append(e.body())
                 continue
             if z3.is_app(e):
-                if e.decl().kind() == z3.Z3_OP_UNINTERPRETED and e.decl().name() in self.FUNCTIONALS and not _has_bound_var(e):
+                if e.decl().kind() == z3.Z3_OP_UNINTERPRETED and e.decl().name() in self.FUNCTIONALS:
                     found.append(e)
                 stack.extend(e.children())
         memo[f.get_id()] = found
@@ -646,13 +645,9 @@ class Engine(ExprMixin, BuiltinMixin):
                 targets.append(("field", self.eval(st, ast.parse(objname, mode="eval").body), fname))
             else:
                 raise Unsupported(f"loop assigns location {a}")
-        entry_alloc = st.alloc
-        for name in list(st.heap):
-            m = st.heap[name]
-            nm = self.ctx.fresh_z(name, m.sort())
-            o = z3.Int(self.ctx.fresh_name("o"))
-            st.assume(z3.ForAll([o], z3.Implies(z3.And(o >= 0, o < entry_alloc), nm[o] == m[o]), patterns=[nm[o]]))
-            st.heap[name] = nm
+        # Allocation never changes the heap maps (fresh cells are pre-filled, see State.init_field), and the body
+        # writes pre-existing objects only at the targets above: no other cell of the maps needs to be forgotten.
+        # Objects allocated by earlier iterations are only reachable through havocked locals / targets.
         st.havoc_alloc()
         for n in sorted(self._assigned_names(body) | set(extra_names)):
             if n in st.env and st.env[n].z is not None:
